@@ -190,7 +190,9 @@ func genS2Case(t *rapid.T, withWrites bool) s2Case {
 		Tracked: rapid.Bool().Draw(t, "tracked"),
 		Keys:    rapid.IntRange(1, 4).Draw(t, "keys"),
 	}
-	ops := []string{"get", "get", "get", "bulkget", "bulkget", "release", "release", "release", "release"}
+	// computecancel: a Compute whose function cancels. It is not a write, an invalidation or an eviction, so it must
+	// neither interrupt single-flight nor change what waiters receive.
+	ops := []string{"get", "get", "get", "bulkget", "bulkget", "release", "release", "release", "release", "computecancel"}
 	if c.Refresh {
 		ops = append(ops, "refresh", "refresh", "bulkrefresh", "advance")
 	}
@@ -208,6 +210,8 @@ func genS2Case(t *rapid.T, withWrites bool) s2Case {
 			for i := 0; i < n; i++ {
 				a.Ks = append(a.Ks, rapid.IntRange(0, c.Keys-1).Draw(t, "bk"))
 			}
+		case "computecancel":
+			a.Sel = rapid.IntRange(0, 2).Draw(t, "variant")
 		case "release":
 			a.Idx = rapid.IntRange(0, 7).Draw(t, "idx")
 			// the outcome is interpreted according to the kind of the released invocation
@@ -369,6 +373,15 @@ func runS2(c s2Case, prop string, perStep func(w *s2World, cache *otter.Cache[in
 					cache.Invalidate(a.K)
 				case "advance":
 					clock.Advance(150)
+				case "computecancel":
+					switch a.Sel % 3 {
+					case 0:
+						cache.Compute(a.K, func(old int, found bool) (int, otter.ComputeOp) { return 0, otter.CancelOp })
+					case 1:
+						cache.ComputeIfAbsent(a.K, func() (int, bool) { return 0, true })
+					default:
+						cache.ComputeIfPresent(a.K, func(old int) (int, otter.ComputeOp) { return 0, otter.CancelOp })
+					}
 				}
 				synctest.Wait()
 				if perStep != nil && verr == nil {
